@@ -154,7 +154,19 @@ def make_callback(spec, dtype):
             if v is not None:
                 system.dt = v
         return cb
+    if kind == "hook":      # a named observer registered by a property module: called with the system at the `at`-th invocation
+        fn = HOOKS[spec["name"]]
+        n = [0]
+
+        def cb(system):
+            n[0] += 1
+            if n[0] == spec.get("at", 1):
+                fn(system, spec)
+        return cb
     raise KeyError(kind)
+
+
+HOOKS = {}
 
 
 EXC = {"ValueError": ValueError, "KeyboardInterrupt": KeyboardInterrupt, "ZeroDivisionError": ZeroDivisionError,
